@@ -55,6 +55,23 @@ class C02(Spec):
             if it % 4 == 0:
                 c['via'] = 'tick'
             yield c
+        # large-scale stream: inter-trial delays and requests around 2^16 samples (block sizes of buffered
+        # implementations), the same history once in big requests and once in small ones
+        big = [65535, 65536, 65537, 100000, 204800]
+        for it in range(4 if tier == 'quick' else 40):
+            nst = rng.randint(1, 2)
+            c = {'kind': 'large', 'fs': rng.choice(QC.FS_LIST), 't0': rng.choice([0, 0.5])}
+            c.update(QC.policy_fields(rng.choice(QC.POLICIES), rng, nst))
+            c['stims'] = QC.rand_stims(rng, nst, max_len=6, max_trials=2)
+            for st in c['stims']:
+                st['delays'] = [rng.choice([65536, 65537, 70000, 98304, 131073])]
+            N = sum((s['len'] + s['delays'][0]) * s['trials'] for s in c['stims']) + 10
+            ops, left = [], N
+            while left > 0:
+                n = min(left, rng.choice(big + [1, 100]))
+                ops.append(['pop', n])
+                left -= n
+            yield dict(c, ops=ops)
         # boundary stream: cuts at every structural position -1/0/+1
         nb = 25 if tier == 'quick' else 400
         for it in range(nb):
